@@ -4,7 +4,10 @@
      dflt  none | file <nitems> { <name> <ntok> tok* }
      cfg   none | <tok> devnull | <tok> missing | <tok> file <nitems> { <name> <ntok> tok* }
      <nbad> { <ty> <tok> }   <nzero> { tok }   <nround> { <ty> <tok> <tok'> }   <reloadtok>
-   tokens are decimal integers.  Output additionally: `law <bool>` = reparse_lawb for the case's oracle (C13). *)
+     <nx> { L|S|B <name> <ntok> tok* }            (extra command-line options of a second reload; 0 = none)
+   tokens are decimal integers.  Output additionally: `law <bool>` = the hypotheses of save_reload_roundtrip on the
+   case's token oracle: reparse_lawb, and the name of the saved file is a string (C13).  With nx > 0:
+   `xstatus`/`xvar` = parse of `<extra options> --config <reloadtok>` on the saved file. *)
 let cs_of_string (s : string) : char list = List.init (String.length s) (String.get s)
 let coqstr (s : string) : char list = cs_of_string s
 let ocstr (l : char list) : string = String.init (List.length l) (List.nth l)
@@ -33,10 +36,11 @@ let print_state tag (s : st) =
 let do_opt () =
   let id = next () in
   let ncli = nexti () in
-  let cli = List.init ncli (fun _ ->
+  let next_cli n = List.init n (fun _ ->
       let k = next () in let nm = coqstr (next ()) in let n = nexti () in
       let ts = List.init n (fun _ -> nextz ()) in
       ((if k = "L" then Long nm else if k = "S" then Short nm else Bare), ts)) in
+  let cli = next_cli ncli in
   let conv l = List.map (fun (nm, ts) -> (coqstr nm, ts)) l in
   let _ = next () in
   let dflt = match next () with
@@ -57,12 +61,14 @@ let do_opt () =
   let nr = nexti () in
   let rounds = List.init nr (fun _ -> let ty = ty_of_string (next ()) in let a = nexti () in let b = nexti () in ((ty, a), b)) in
   let reloadtok = nextz () in
+  let nx = nexti () in
+  let xcli = next_cli nx in
   let wf ty t = not (List.mem (ty, int_of_z t) bad) in
   let zerotok t = List.mem (int_of_z t) zeros in
   let round6 ty t = match List.assoc_opt (ty, int_of_z t) rounds with Some b -> z_of_int b | None -> t in
   let fs t = match cfgtok with Some c when c = int_of_z t -> cfgent | _ -> FNoFile in
   Printf.printf "case %s\n" id;
-  Printf.printf "law %b\n" (reparse_lawb gen_table wf gen_wrules);
+  Printf.printf "law %b\n" (reparse_lawb gen_table wf gen_wrules && wf TString reloadtok);
   (match parse gen_table wf gen_prog cli fs dflt with
    | Fail -> print_string "status fail\n"
    | Stop -> print_string "status stop\n"
@@ -73,7 +79,12 @@ let do_opt () =
      (match reload gen_table wf gen_wrules zerotok round6 gen_prog s reloadtok with
       | Fail -> print_string "rstatus fail\n"
       | Stop -> print_string "rstatus stop\n"
-      | Run r -> print_string "rstatus run\n"; print_state "r" r));
+      | Run r -> print_string "rstatus run\n"; print_state "r" r);
+     if nx > 0 then
+       (match reload_with gen_table wf gen_wrules zerotok round6 gen_prog s reloadtok xcli with
+        | Fail -> print_string "xstatus fail\n"
+        | Stop -> print_string "xstatus stop\n"
+        | Run r -> print_string "xstatus run\n"; print_state "x" r));
   print_string "end\n"
 
 let do_table () =
